@@ -8,6 +8,7 @@ from vlib import reftarget as rt
 LEVEL = "exploration"
 SHARDS = {"quick": 4, "thorough": 16}
 TIMEOUT = {"quick": 900, "thorough": 3000}
+MIN_EVALUATIONS = {"quick": 8000, "thorough": 8000}  # fewer oracle evaluations than this means the workload collapsed: inconclusive
 RULE = ("addresses generated from the data-file grammar: N/B/F/L word form, /bit form, S: and I:/O: forms (with .word), Bf/n for EVERY n in "
         "0..4095, {count} within one packet, T/C .PRE/.ACC/.EN/.TT/.DN/.CU/.CD/.OV/.UN/.UA reads; file numbers incl. 1 and 255, elements incl. 0, "
         "254 and 255 (which need the FF escape), upper/lower case; random prior data tables; reads are compared with the data table, the PCCC "
